@@ -546,18 +546,20 @@ Section Put.
     rewrite firstn_length, app_length in L. simpl in L. lia.
   Qed.
 
-  Theorem put_runs : forall f chunks,
+  (* from the Lstat of the destination onwards: [g] is the state with the complete staging file,
+     [f] the same state without it *)
+  Theorem finish_runs : forall f g content,
     fs_wf f -> all_dirs f (f_base cfg) -> fs_lookup f (staging_dir (f_base cfg)) = Some Dir ->
     fs_lookup f stp = None -> fs_lookup f d <> Some Dir ->
     (forall j c, (0 < j <= length cs)%nat -> fs_lookup f (f_base cfg ++ firstn j cs) <> Some (File c)) ->
     (forall j, (j <= length cs)%nat -> stp <> f_base cfg ++ firstn j cs) -> stp <> d ->
-    exists f', reach env (length chunks + 2 * length cs + 6) (f, WCreate 0 chunks) (f', WDone (Ok tt)) /\
-               put_post f f' (concat chunks).
+    fs_lookup g stp = Some (File content) -> same_except f g stp ->
+    exists f', reach env (2 * length cs + 4) (g, WLstatNew stp false) (f', WDone (Ok tt)) /\
+               put_post f f' content.
   Proof.
-    intros f chunks W B T FR ND NF SD SDd.
+    intros f g content W B T FR ND NF SD SDd LG SG.
     assert (TD : all_dirs f (staging_dir (f_base cfg))).
     { unfold staging_dir. apply all_dirs_snoc; auto. }
-    destruct (phase_write f chunks TD FR) as [g [R1 [LG SG]]].
     assert (FRD : fs_lookup f stp <> Some Dir) by (rewrite FR; discriminate).
     assert (TR : forall q, all_dirs f q -> all_dirs g q).
     { intros q. eapply all_dirs_same_except; eauto. }
@@ -565,10 +567,10 @@ Section Put.
     assert (GD : fs_lookup g d = fs_lookup f d) by (apply SG; auto).
     pose proof d_nonnil as DN. pose proof d_path_ok as DP. pose proof stp_nonnil as SN. pose proof stp_ok as SP.
     (* the final rename, from any state in which the parent chain exists *)
-    assert (FIN : forall h second, fs_lookup h stp = Some (File (concat chunks)) -> all_dirs h (dirname stp) ->
+    assert (FIN : forall h second, fs_lookup h stp = Some (File content) -> all_dirs h (dirname stp) ->
               all_dirs h (f_base cfg ++ cs) -> fs_lookup h d <> Some Dir ->
               reach env 2 (h, WLstatNew stp second)
-                    (fs_set (fs_remove h stp) d (File (concat chunks)), WDone (Ok tt))).
+                    (fs_set (fs_remove h stp) d (File content), WDone (Ok tt))).
     { intros h second LH SH DH NH.
       assert (X1 : sys_exec h (SLstat d) = (h, match fs_lookup h d with Some n => Ok (RVNode n) | None => Err ENOENT end)).
       { apply exec_lstat_ok; auto. rewrite d_dirname. auto. }
@@ -578,7 +580,7 @@ Section Put.
                      (match fs_lookup h d with Some n => Ok (RVNode n) | None => Err ENOENT end) = WRename stp second).
       { simpl. destruct (fs_lookup h d) as [[c|]|]; auto. congruence. }
       rewrite ST in R.
-      assert (X2 : sys_exec h (SRename stp d) = (fs_set (fs_remove h stp) d (File (concat chunks)), Ok RVUnit)).
+      assert (X2 : sys_exec h (SRename stp d) = (fs_set (fs_remove h stp) d (File content), Ok RVUnit)).
       { apply exec_rename_ok; auto. rewrite d_dirname. auto. }
       assert (NX2 : w_next env (WRename stp second) = Some (SRename stp d)) by (simpl; rewrite w_dest_d; auto).
       pose proof (reach_step env h _ _ _ _ NX2 X2) as R2.
@@ -587,8 +589,8 @@ Section Put.
     - (* every shard directory exists: Lstat, rename *)
       assert (NG : fs_lookup g d <> Some Dir) by (rewrite GD; auto).
       pose proof (FIN g false LG STD (TR _ AD) NG) as R2.
-      exists (fs_set (fs_remove g stp) d (File (concat chunks))). split.
-      + eapply reach_weaken; [|eapply reach_trans; [exact R1|exact R2]]. lia.
+      exists (fs_set (fs_remove g stp) d (File (content))). split.
+      + eapply reach_weaken; [|exact R2]. lia.
       + constructor.
         * apply lookup_set_same; auto.
         * rewrite lookup_set_other by auto. apply lookup_remove_same; auto.
@@ -656,7 +658,7 @@ Section Put.
           intros i Hi. apply Hp. simpl in *. lia. }
         assert (NE : forall p, fs_lookup g p <> None -> (forall i, (0 < i <= length (m :: ms'))%nat -> p <> E ++ firstn i (m :: ms'))).
         { intros p Hp i Hi X. subst p. rewrite ZG in Hp by auto. congruence. }
-        assert (L2 : fs_lookup g2 stp = Some (File (concat chunks))).
+        assert (L2 : fs_lookup g2 stp = Some (File (content))).
         { rewrite F2. auto. apply NE. rewrite LG. discriminate. }
         assert (DG : fs_lookup g d = None).
         { rewrite DSH. change (E ++ m :: ms' ++ [e]) with (E ++ [m] ++ (ms' ++ [e])). rewrite app_assoc.
@@ -672,9 +674,9 @@ Section Put.
           rewrite STD by auto. discriminate. }
         assert (N2 : fs_lookup g2 d <> Some Dir) by (rewrite D2; discriminate).
         pose proof (FIN g2 true L2 STD2 D5 N2) as R6.
-        exists (fs_set (fs_remove g2 stp) d (File (concat chunks))). split.
-        * eapply reach_weaken; [|eapply reach_trans; [exact R1|eapply reach_trans; [exact R2|
-             eapply reach_trans; [exact R3|eapply reach_trans; [exact R4|eapply reach_trans; [exact R5|exact R6]]]]]].
+        exists (fs_set (fs_remove g2 stp) d (File (content))). split.
+        * eapply reach_weaken; [|eapply reach_trans; [exact R2|
+             eapply reach_trans; [exact R3|eapply reach_trans; [exact R4|eapply reach_trans; [exact R5|exact R6]]]]].
           simpl length. simpl in LMS. lia.
         * constructor.
           -- apply lookup_set_same; auto.
@@ -692,4 +694,149 @@ Section Put.
              rewrite F2. apply SG. apply not_eq_sym. apply SD. lia.
              apply NE. rewrite SG. auto. apply not_eq_sym. apply SD. lia.
   Qed.
+
+  Theorem put_runs : forall f chunks,
+    fs_wf f -> all_dirs f (f_base cfg) -> fs_lookup f (staging_dir (f_base cfg)) = Some Dir ->
+    fs_lookup f stp = None -> fs_lookup f d <> Some Dir ->
+    (forall j c, (0 < j <= length cs)%nat -> fs_lookup f (f_base cfg ++ firstn j cs) <> Some (File c)) ->
+    (forall j, (j <= length cs)%nat -> stp <> f_base cfg ++ firstn j cs) -> stp <> d ->
+    exists f', reach env (length chunks + 2 * length cs + 6) (f, WCreate 0 chunks) (f', WDone (Ok tt)) /\
+               put_post f f' (concat chunks).
+  Proof.
+    intros f chunks W B T FR ND NF SD SDd.
+    assert (TD : all_dirs f (staging_dir (f_base cfg))).
+    { unfold staging_dir. apply all_dirs_snoc; auto. }
+    destruct (phase_write f chunks TD FR) as [g [R1 [LG SG]]].
+    destruct (finish_runs f g (concat chunks) W B T FR ND NF SD SDd LG SG) as [f' [R2 PP]].
+    exists f'. split; auto.
+    eapply reach_weaken; [|eapply reach_trans; [exact R1|exact R2]]. lia.
+  Qed.
+
+  (* the commit of a stream that was opened and written earlier: close, then the same *)
+  Theorem commit_runs : forall f g content,
+    fs_wf f -> all_dirs f (f_base cfg) -> fs_lookup f (staging_dir (f_base cfg)) = Some Dir ->
+    fs_lookup f stp = None -> fs_lookup f d <> Some Dir ->
+    (forall j c, (0 < j <= length cs)%nat -> fs_lookup f (f_base cfg ++ firstn j cs) <> Some (File c)) ->
+    (forall j, (j <= length cs)%nat -> stp <> f_base cfg ++ firstn j cs) -> stp <> d ->
+    fs_lookup g stp = Some (File content) -> same_except f g stp ->
+    exists f', reach env (2 * length cs + 5) (g, WClose stp None) (f', WDone (Ok tt)) /\
+               put_post f f' content.
+  Proof.
+    intros f g content W B T FR ND NF SD SDd LG SG.
+    destruct (finish_runs f g content W B T FR ND NF SD SDd LG SG) as [f' [R2 PP]].
+    exists f'. split; auto.
+    assert (Y : sys_exec g (SClose stp) = (g, Ok RVUnit)) by reflexivity.
+    pose proof (reach_step env g (WClose stp None) _ _ _ eq_refl Y) as R0.
+    simpl in R0. rewrite env_dest in R0.
+    eapply reach_weaken; [|eapply reach_trans; [exact R0|exact R2]]. lia.
+  Qed.
 End Put.
+
+(* ------------------------------------------------------------------ every system call keeps the tree well-formed *)
+
+Lemma walk_ok_dirs : forall f rest pre, walk_from f pre rest = Ok tt ->
+  forall n, (0 < n <= length rest)%nat -> fs_lookup f (pre ++ firstn n rest) = Some Dir.
+Proof.
+  induction rest; intros pre H n Hn; simpl in *. lia.
+  destruct (name_max <? lenN a)%N; try discriminate.
+  destruct (fs_lookup f (pre ++ [a])) as [[c|]|] eqn:L; try discriminate.
+  destruct n; try lia. destruct n. simpl. auto.
+  simpl. specialize (IHrest (pre ++ [a]) H (S n)). rewrite <- app_assoc in IHrest. apply IHrest. lia.
+Qed.
+
+Lemma resolve_parent : forall f p x, p <> [] -> resolve f p = Ok x -> fs_lookup f (dirname p) = Some Dir.
+Proof.
+  intros f p x N R. rewrite resolve_unfold in R by auto.
+  destruct (has_nul p); try discriminate.
+  destruct (walk_from f [] (dirname p)) as [[]|e] eqn:W; try discriminate.
+  destruct (dirname p) as [|c q] eqn:D. reflexivity.
+  rewrite <- (firstn_all (c :: q)). apply (walk_ok_dirs f (c :: q) [] W). simpl. lia.
+Qed.
+
+Lemma wf_set_leaf : forall f p n, fs_wf f -> p <> [] -> fs_lookup f (dirname p) = Some Dir ->
+  (forall c, n = File c -> fs_lookup f p <> Some Dir) ->
+  (n = Dir -> fs_lookup f p = None) ->
+  fs_wf (fs_set f p n).
+Proof.
+  intros f p n W PN PAR HF HD q m QN L.
+  assert (DP : dirname p <> p).
+  { intros X. apply (f_equal (@length _)) in X. destruct (exists_last PN) as [a [l E]]. rewrite E in X.
+    rewrite dirname_snoc in X. rewrite app_length in X. simpl in X. lia. }
+  destruct (path_eqb p q) eqn:E.
+  - apply path_eqb_eq in E. subst q. rewrite lookup_set_other; auto.
+  - apply path_eqb_neq in E. rewrite lookup_set_other in L by auto.
+    pose proof (W q m QN L) as PQ.
+    destruct (path_eqb p (dirname q)) eqn:E2.
+    + apply path_eqb_eq in E2. rewrite <- E2. rewrite <- E2 in PQ.
+      destruct n as [c|].
+      * exfalso. eapply HF; eauto.
+      * rewrite HD in PQ; auto. discriminate.
+    + apply path_eqb_neq in E2. rewrite lookup_set_other; auto.
+Qed.
+
+Lemma wf_remove_file : forall f p c, fs_wf f -> fs_lookup f p = Some (File c) -> fs_wf (fs_remove f p).
+Proof.
+  intros f p c W LP q m QN L.
+  destruct (path_eqb p q) eqn:E.
+  - apply path_eqb_eq in E. subst q. rewrite lookup_remove_same in L. discriminate.
+    eapply lookup_file_nonnil; eauto.
+  - apply path_eqb_neq in E. rewrite lookup_remove_other in L by auto.
+    pose proof (W q m QN L) as PQ. rewrite lookup_remove_other; auto.
+    intros X. rewrite <- X in PQ. congruence.
+Qed.
+
+Lemma sys_exec_wf : forall f s, fs_wf f -> fs_wf (fst (sys_exec f s)).
+Proof.
+  intros f s W. destruct s; simpl.
+  - destruct (resolve f p) as [[n|]|e]; simpl; auto.
+  - destruct (resolve f p) as [[n|]|e]; simpl; auto.
+  - destruct (resolve f p) as [[n|]|e]; simpl; auto.
+  - destruct (resolve f p) as [[n|]|e] eqn:R; simpl; auto.
+    destruct (resolve_none f p R) as [PN L].
+    apply wf_set_leaf; [exact W|exact PN|eapply resolve_parent; eauto| |].
+    + intros c0 _. rewrite L. discriminate.
+    + intros X. discriminate.
+  - destruct (fs_lookup f p) as [[old|]|] eqn:L; simpl; auto.
+    assert (PN : p <> []) by (eapply lookup_file_nonnil; eauto).
+    apply wf_set_leaf; [exact W|exact PN|eapply (W p); eauto| |].
+    + intros c0 _. rewrite L. discriminate.
+    + intros X. discriminate.
+  - auto.
+  - destruct (resolve f p) as [[[c|]|]|e] eqn:R; simpl; auto.
+    apply resolve_some in R.
+    assert (PN : p <> []) by (eapply lookup_file_nonnil; eauto).
+    assert (WR : fs_wf (fs_remove f p)) by (eapply wf_remove_file; eauto).
+    destruct (resolve f q) as [[[c'|]|]|e] eqn:R2; simpl; auto.
+    + pose proof (resolve_some f q _ R2) as LQ.
+      assert (QN : q <> []) by (eapply lookup_file_nonnil; eauto).
+      assert (PAR : fs_lookup f (dirname q) = Some Dir) by (eapply resolve_parent; eauto).
+      assert (DQ : p <> dirname q) by (intros X; rewrite <- X in PAR; congruence).
+      apply wf_set_leaf; [exact WR|exact QN| | |].
+      * rewrite lookup_remove_other; auto.
+      * intros c0 _. destruct (path_eqb p q) eqn:PQ.
+        -- apply path_eqb_eq in PQ. subst q. rewrite lookup_remove_same by auto. discriminate.
+        -- apply path_eqb_neq in PQ. rewrite lookup_remove_other by auto. rewrite LQ. discriminate.
+      * intros X. discriminate.
+    + destruct (resolve_none f q R2) as [QN LQ].
+      assert (PQ : p <> q) by (intros X; subst; congruence).
+      assert (PAR : fs_lookup f (dirname q) = Some Dir) by (eapply resolve_parent; eauto).
+      assert (DQ : p <> dirname q) by (intros X; rewrite <- X in PAR; congruence).
+      apply wf_set_leaf; [exact WR|exact QN| | |].
+      * rewrite lookup_remove_other; auto.
+      * intros c0 _. rewrite lookup_remove_other by auto. rewrite LQ. discriminate.
+      * intros X. discriminate.
+  - destruct (resolve f p) as [[n|]|e] eqn:R; simpl; auto.
+    destruct (resolve_none f p R) as [PN L].
+    apply wf_set_leaf; [exact W|exact PN|eapply resolve_parent; eauto| |].
+    + intros c0 X. discriminate.
+    + intros _. exact L.
+  - destruct (resolve f p) as [[[c|]|]|e] eqn:R; simpl; auto.
+    apply resolve_some in R. eapply wf_remove_file; eauto.
+Qed.
+
+Lemma fail_effect_wf : forall f s part, fs_wf f -> fs_wf (fail_effect f s part).
+Proof.
+  intros f s part W. destruct s; simpl; auto.
+  apply (sys_exec_wf f (SWrite p (firstn part c)) W).
+Qed.
+
